@@ -32,7 +32,7 @@ Term(s) == CASE s = 1 -> "return" [] s = 2 -> "error-through-finally" [] s = 3 -
              [] s \in 16..19 -> "module-state"     \* object modules (bytes, sync-map, array) and nested values of a builtin module, changed in place
              [] s = 13 -> "abort" [] s = 14 -> "recovered-panic"      \* both while main is inside a try statement and a callee is running
 Ops == {"none-same-bytecode", "clear", "setbytecode", "clear+setbytecode"}
-Probes == 1..15
+Probes == 1..16
 
 \* what a run may leave dirty (everything it touched stays as it was when the run stopped)
 DirtyAfter(t) ==
